@@ -458,6 +458,7 @@ class SpecGen:
                 self.feat('field', 'optional', 'chunked' if st['chunked'] else 'plain')
             if rng.random() < 0.4:
                 st['body'].append(A(self.name(st), rng.choice(['char', 'short', 'three']), optional='true'))
+                self.mark_unbounded(st)           # an array without length makes the struct unbounded (type_factory._is_bounded)
                 self.feat('array', 'optional', 'chunked' if st['chunked'] else 'plain')
             elif rng.random() < 0.25 and not st['chunked']:
                 st['body'].append(D('short', str(rng.randrange(0, 200))))     # written only when nothing else was
